@@ -106,7 +106,12 @@ type c12Universe struct {
 	flags []string
 }
 
-func c12NewUniverse(t *testing.T, id, n int) *c12Universe {
+func c12NewUniverse(t *testing.T, id, n int) *c12Universe { return c12NewUniverseMode(t, id, n, "standalone") }
+
+// c12NewUniverseMode: mode "cluster" / "sentinel" make the replicas reach the store through oauth2-proxy's Cluster / Sentinel
+// client (own builders, the cluster with its own wrapper type and lock constructor); used by the stress phase only — those
+// builders ignore URL parameters, so the library's 3 s read timeout applies, which the scheduler's gates would exceed.
+func c12NewUniverseMode(t *testing.T, id, n int, mode string) *c12Universe {
 	w := vfNewWorld(t)
 	mr, err := miniredis.Run()
 	if err != nil {
@@ -117,8 +122,8 @@ func c12NewUniverse(t *testing.T, id, n int) *c12Universe {
 	iss := w.IdP.Issuer
 	for i := 0; i < n; i++ {
 		f := u.hub.Front(i)
-		p, err := w.NewProxy("--skip-oidc-discovery=true", "--login-url="+iss+"/authorize", "--redeem-url="+fmt.Sprintf("%s/token/inst%d", iss, i), "--oidc-jwks-url="+iss+"/jwks",
-			"--session-store-type=redis", "--redis-connection-url="+f.URL("read_timeout=30s&max_retries=-1&pool_size=8"), "--cookie-refresh=1m", "--cookie-expire=2h", "--pass-access-token=true")
+		p, err := w.NewProxy(append([]string{"--skip-oidc-discovery=true", "--login-url=" + iss + "/authorize", "--redeem-url=" + fmt.Sprintf("%s/token/inst%d", iss, i), "--oidc-jwks-url=" + iss + "/jwks",
+			"--session-store-type=redis", "--cookie-refresh=1m", "--cookie-expire=2h", "--pass-access-token=true"}, f.ModeFlags(mode, "read_timeout=30s&max_retries=-1&pool_size=8")...)...)
 		if err != nil {
 			t.Fatalf("universe %d replica %d: %v", id, i, err)
 		}
@@ -648,6 +653,13 @@ func TestVerif_C12(t *testing.T) {
 	stuckDone := make(chan struct{})
 	go func() { defer close(stuckDone); c12StuckLock(run, t) }()
 	c12Stress(run, u3, run.Env.Pick(40, 600))
+	// the same stress through the Cluster and the Sentinel client (lock, reload-under-lock and save go through other code)
+	topo := []*c12Universe{c12NewUniverseMode(t, 200, 3, "cluster"), c12NewUniverseMode(t, 201, 3, "sentinel")}
+	c12Stress(run, topo, run.Env.Pick(12, 160))
+	for _, u := range topo {
+		run.Count("stress_topology_client_universes", 1)
+		u.w.Close()
+	}
 
 	// ---- C: sequential ages x behaviours x stores --------------------------------------------------------------
 	c12Sequential(run, t)
@@ -923,8 +935,12 @@ func c12Legacy(run *vfRun, t *testing.T) {
 func c12Sequential(run *vfRun, t *testing.T) {
 	w := vfNewWorld(t)
 	defer w.Close()
-	for _, store := range []string{"cookie", "redis"} {
-		p, err := w.NewProxy("--session-store-type="+store, "--redis-connection-url="+w.RedisURL(), "--cookie-refresh=1m", "--cookie-expire=2h", "--pass-access-token=true")
+	for _, store := range []string{"cookie", "redis", "redis-cluster", "redis-sentinel"} {
+		sflags := []string{"--session-store-type=cookie"}
+		if strings.HasPrefix(store, "redis") {
+			sflags = append([]string{"--session-store-type=redis"}, w.RedisModeFlags(strings.TrimPrefix(strings.TrimPrefix(store, "redis"), "-"))...)
+		}
+		p, err := w.NewProxy(append(sflags, "--cookie-refresh=1m", "--cookie-expire=2h", "--pass-access-token=true")...)
 		if err != nil {
 			t.Fatalf("sequential %s: %v", store, err)
 		}
